@@ -1,6 +1,6 @@
 #!/bin/bash
 cd "$(dirname "$0")/.."
-for p in ${@:-C19 C08 C17 C18}; do
+for p in ${@:-C19 C18 C17 C08}; do
   /usr/bin/time -f "WALL $p %es" python3 check.py $p --tier thorough 2>&1 | grep -v "^\[check\] built\|^\[check\] api"
   echo "EXIT $p ${PIPESTATUS[0]}"
 done
